@@ -1,7 +1,54 @@
-import VermouthModel.Proto
-open Proto
+import VermouthModel.C10
+import Generated.C10Radii
+open Proto C10
 
-/-- placeholder driver for C10: replaced when the model is written -/
-def handle (_ : Unit) (_ : List Tok) : Unit × String := ((), "bad-op")
+def atomOf (t : Tok) : Option Atom := do
+  match ← t.list? with
+  | [m, ch, ri, rn, ic, nm, el, x, y, z] =>
+    pure { mol := ← m.nat?, chain := ← ch.optStr?, resid := ← ri.optInt?, resname := ← rn.optStr?,
+           icode := ← ic.optStr?, name := ← nm.optStr?, element := ← el.optStr?,
+           x := ← x.int?, y := ← y.int?, z := ← z.int? }
+  | _ => none
+
+def edgeOf (t : Tok) : Option Edge := do
+  match ← t.list? with
+  | [a, b] => pure (← a.nat?, ← b.nat?)
+  | _ => none
+
+def blockOf (t : Tok) : Option (String × Block) := do
+  match ← t.list? with
+  | [n, names, edges] =>
+    pure (← n.str?, { names := ← strs? names, edges := ← (← edges.list?).mapM edgeOf })
+  | _ => none
+
+def labelOf (mols : List (List Nat)) (i : Nat) : Nat :=
+  match mols.find? (fun p => p.contains i) with
+  | some p => p.foldl min i
+  | none => i
+
+def render (S : Sys) (R : Result) : String :=
+  let n := S.atoms.length
+  let es := (allPairs n).filterMap fun e =>
+    if R.bonded S e.1 e.2 then
+      some (encList [encNat e.1, encNat e.2, if R.hasDistance e.1 e.2 then "2" else "1"])
+    else none
+  let count := (R.mols.map List.length).sum
+  "E " ++ encList es ++ " L " ++ encList ((List.range n).map fun i => encNat (labelOf R.mols i))
+    ++ " S " ++ encList ((List.range n).map fun i => encNat (serial S.atoms i))
+    ++ " N " ++ encNat count
+
+def handle (_ : Unit) (toks : List Tok) : Unit × String :=
+  let r : Option String :=
+    match toks with
+    | [Tok.str "run", atoms, pre, ff, an, ad, p, q] => do
+        let atoms ← (← atoms.list?).mapM atomOf
+        let pre ← (← pre.list?).mapM edgeOf
+        let ff ← (← ff.list?).mapM blockOf
+        let S : Sys := { atoms := atoms, pre := pre, ff := ff, radii := vdwRadii,
+                         allowName := (← an.nat?) != 0, allowDist := (← ad.nat?) != 0,
+                         p := ← p.nat?, q := ← q.nat? }
+        pure (render S (run S))
+    | _ => none
+  ((), r.getD "bad-op")
 
 def main : IO Unit := runDriver handle ()
